@@ -11,6 +11,7 @@
 #include <boost/gil/extension/io/bmp/tags.hpp>
 
 #include <algorithm>
+#include <limits>
 
 namespace boost { namespace gil {
 
@@ -104,6 +105,12 @@ public:
 
             if (_info._height < 0)
             {
+                // the magnitude of the most negative height is not representable
+                if (_info._height == (std::numeric_limits<bmp_image_height::type>::min)())
+                {
+                    io_error( "Invalid BMP image height." );
+                }
+
                 _info._height = -_info._height;
                 _info._top_down = true;
             }
